@@ -125,10 +125,17 @@ impl<'a> Lexer<'a> {
 
         let mut base = 10;
         if c == '0' {
-            if self.s.eat_if('b') {
-                base = 2;
-            } else if self.s.eat_if('x') {
-                base = 16;
+            // a radix prefix needs a digit of that radix: `0b`, `0x`, `0bar`, `0xg` are digit-leading identifiers
+            match (self.s.peek(), self.s.scout(1)) {
+                (Some('b'), Some('0' | '1')) => {
+                    self.s.eat();
+                    base = 2;
+                }
+                (Some('x'), Some(d)) if d.is_ascii_hexdigit() => {
+                    self.s.eat();
+                    base = 16;
+                }
+                _ => {}
             }
         }
 
